@@ -226,7 +226,58 @@ def r11_4(run):
             run.ob('R11.4', pm, pm.node, '%s.parse returns a list on every path' % cname, ok, slot='list-parse:%s' % cname, message='%s.parse returns %s' % (cname, [src(r.value)[:30] for r in rets]))
 
 
+def r11_5(run):
+    """siblings: both places that turn Tor's answer into a scalar value consult the option default
+    when Tor reports the option unset, and parse it like any other value"""
+    for name, dmap in (('_do_setup', 'defaults'), ('_conf_changed', 'self._defaults')):
+        u = CU(run, name)
+        g = cfg_of(u)
+        found = False
+        for n in g.real_nodes():
+            if n.kind != 'stmt' or not isinstance(n.ast, ast.Assign):
+                continue
+            v = n.ast.value
+            calls = [c for c in ast.walk(v) if isinstance(c, ast.Call) and callee_attr(c) == 'get' and dotted(receiver(c)) in ('defaults', 'self._defaults', "self.__dict__['_defaults']")
+                     and len(c.args) == 2 and dotted(c.args[1]) == 'DEFAULT_VALUE']
+            if not calls:
+                continue
+            gd = g.guarded_by(n, lambda t: isinstance(t, ast.Compare) and dotted(t.comparators[0]) == 'DEFAULT_VALUE' and isinstance(t.ops[0], (ast.Eq, ast.Is)))
+            sentinel_leg = any(lab == 'T' for _, lab in gd) or any(
+                n in g.reachable([s_ for lab, s_ in t.succ if lab == 'T'])
+                for t in g.live if t.kind == 'test' and isinstance(t.ast, ast.Compare) and dotted(t.ast.comparators[0]) == 'DEFAULT_VALUE'
+                and isinstance(t.ast.ops[0], (ast.Eq, ast.Is)))
+            # the looked-up default must flow into the parser (same variable later parsed, or parsed directly)
+            tgt = assigned_targets(n.ast)
+            parsed_directly = any(isinstance(c, ast.Call) and callee_attr(c) == 'parse' for c in ast.walk(v))
+            parsed_later = any(isinstance(c, ast.Call) and callee_attr(c) == 'parse' and c.args and dotted(c.args[0]) in tgt
+                               for x in g.reachable([s_ for _, s_ in n.succ]) if x.kind in ('stmt', 'test') for c in node_asts(x))
+            if sentinel_leg and (parsed_directly or parsed_later):
+                found = True
+        run.ob('R11.5', u, u.node, '%s: an unset scalar option takes the (parsed) default Tor reported' % name, found, slot='default-lookup:%s' % name,
+               message='%s no longer looks the option default up when Tor reports the option unset: the value degrades to the '
+                       'raw marker / raw default string and changes type' % name)
+    # list_parsers: writers and the change-event reader agree on the key form (raw vs lower-cased)
+    tc = TC(run)
+    forms = {}
+    for u in class_units(run.idx, tc):
+        for c in calls_in(u):
+            if dotted(c.func) == 'self.list_parsers.add' and c.args:
+                a = c.args[0]
+                form = 'lower' if (isinstance(a, ast.Call) and callee_attr(a) == 'lower') else 'raw'
+                forms.setdefault(form, []).append((u, c))
+    cc = CU(run, '_conf_changed')
+    tests = [n for n in walk_unit(cc) if isinstance(n, ast.Compare) and dotted(n.comparators[0]) == 'self.list_parsers']
+    rforms = set('lower' if (isinstance(t.left, ast.Call) and callee_attr(t.left) == 'lower') else 'raw' for t in tests)
+    run.floor('R11.5', 'list_parsers.add sites', sum(len(v) for v in forms.values()), 2)
+    ok = len(forms) == 1 and len(rforms) == 1 and set(forms) == rforms
+    where = forms.get('lower', forms.get('raw', [(cc, cc.node)]))[0]
+    run.ob('R11.5', where[0], where[1], 'list-option names are recorded and looked up in one key form', ok, slot='list_parsers-key-form',
+           message='self.list_parsers is written with %s keys and read by _conf_changed with %s keys: some list options are not '
+                   'recognised as lists after a change event' % (sorted(forms), sorted(rforms)))
+
+
 RULES = [
+    ('R11.5', 'sibling agreement: default lookup + parse on the unset leg in _do_setup and _conf_changed; key-form agreement of list_parsers writers/reader', r11_5),
     ('R11.1', 'store-site typing: every value stored under a Tor option key that may be list-typed is a _ListWrapper (or excluded by a dominating test / copied from the wrapped pending set)', r11_1),
     ('R11.2', 'name routing: entry points index config/parsers/unsaved only with _find_real_name results; it compares lower() on both sides', r11_2),
     ('R11.3', 'sentinel flow: DEFAULT_VALUE cannot reach a scalar type parser', r11_3),
